@@ -221,6 +221,37 @@ RENAME = [
     ("C06", "EasyFEA.FEM._group_elem._GroupElem._Eval_Functions"), ("C06", "EasyFEA.FEM.Elems._tri.TRI6._N"), ("C06", "EasyFEA.FEM._group_elem._GroupElem.Get_dN_pg"),
 ]
 
+# ---------------------------------------------------------------- third session: protocol model, forms, generic history rules
+mut("C12", "align-pad-right", E + "FEM/_linalg.py", "op[(slice(None), slice(None)) + (None,) * (nt - rank)]", "op[(Ellipsis,) + (None,) * (nt - rank)]", "R12.7")
+mut("C12", "wrap-one-axis", E + "FEM/_linalg.py", "elif res.ndim >= 2 and res.shape[:2] == feShape:", "elif res.ndim >= 2 and res.shape[:1] == feShape[:1]:", "R12.7")
+mut("C12", "T-order-high-rank", E + "FEM/_linalg.py", "axes = tuple(range(2)) + tuple(range(n - 1, 1, -1))", "axes = tuple(range(2)) + (n - 1,) + tuple(range(2, n - 1))", "R12.7")
+mut("C12", "rmatmul-dropped", E + "FEM/_linalg.py", "    def __rmatmul__(self, other) -> FeArrayALike:", "    def _unused_rmatmul(self, other) -> FeArrayALike:", "R12.7")
+same("C12", "align-reshape", E + "FEM/_linalg.py", "        nt = max(ranks)\n        return tuple(", "        nt = max(ranks)\n        widest = nt\n        nt = widest\n        return tuple(")
+mut("C13", "rsub-forward", E + "FEM/_field.py", "        return other - self()", "        return self() - other", "R13.8")
+mut("C13", "symgrad-minus", E + "FEM/_field.py", "    return 0.5 * (grad.T + grad)", "    return 0.5 * (grad.T - grad)", "R13.8")
+mut("C13", "grad-layout", E + "FEM/_field.py", "            newArray[..., :, dof] = array", "            newArray[..., dof, :] = array", "R13.8")
+same("C13", "rsub-rewrite", E + "FEM/_field.py", "        return other - self()", "        return -(self() - other)")
+mut("C04", "newton-per-entry", E + "Simulations/_simu.py", "            dofsValues[first] -= u[dofs[first]]", "            dofsValues -= u[dofs]", "R4.6")
+mut("C04", "bounds-not-reduced", E + "Simulations/Solvers.py", "        lb, ub = lb[dofsUnknown], ub[dofsUnknown]", "        lb, ub = lb, ub", "R4.1")
+same("C04", "bounds-size-test", E + "Simulations/Solvers.py", "    if len(lb) > 0:", "    if len(lb) != 0:")
+mut("C08", "inverse-map-residual", E + "FEM/_group_elem.py", "                        J = N[0, 0] @ coordElemBase[:, :dim] - xP  # cost function", "                        J = N[0, 0] @ coordElemBase[:, :dim] + xP  # cost function", "R8.8")
+same("C08", "inverse-map-two-steps", E + "FEM/_group_elem.py", "                        J = N[0, 0] @ coordElemBase[:, :dim] - xP  # cost function", "                        x_of_xi = N[0, 0] @ coordElemBase[:, :dim]\n                        J = x_of_xi - xP  # cost function")
+mut("C09", "lineload-frame-transposed", E + "Simulations/_beam.py", "                P_e[:, row % 3, :],", "                P_e[:, :, row % 3],", "R9.7")
+mut("C14", "new-mesh-not-observed", E + "Simulations/_simu.py", "            # the simulation looks for modifications of the new mesh too\n            mesh._Add_observer(self)\n", "", "R14.17")
+mut("C14", "dirichlet-no-resize", E + "Simulations/_simu.py", "        if len(self.__Bc_Lagrange) > 0:\n            # with Lagrange multipliers the size of the matrix system follows the Dirichlet dofs\n            self.Need_Update()\n", "", "R14.3b")
+same("C14", "getKCMF-locals", E + "Simulations/_simu.py", "        return self.__K.copy(), self.__C.copy(), self.__M.copy(), self.__F.copy()", "        K = self.__K.copy()\n        C, M, F = self.__C.copy(), self.__M.copy(), self.__F.copy()\n        return K, C, M, F")
+same("C14", "coord-setter-validation", E + "FEM/_group_elem.py", "        self.__coord = coord[self.nodes]\n        self._InitMatrix()", "        if not isinstance(coord, np.ndarray):\n            raise TypeError(\"coord must be an array\")\n        self.__coord = coord[self.nodes]\n        self._InitMatrix()")
+mut("C10", "yaxis-not-unit", E + "Models/Beam/_beam.py", "            yAxis = Normalize(np.cross(zAxis, xAxis))", "            yAxis = np.cross(zAxis, xAxis) * 2", "R10.8")
+same("C10", "yaxis-two-steps", E + "Models/Beam/_beam.py", "            zAxis = Normalize(np.cross(xAxis, yAxis))", "            zAxis = np.cross(xAxis, yAxis)\n            zAxis = Normalize(zAxis)")
+mut("C15", "load-mesh-swapped-kw", E + "FEM/_mesh.py", "            elements=elements, nodes=nodes, rank=rank, ghostElements=ghostElements", "            elements=nodes, nodes=elements, rank=rank, ghostElements=ghostElements", "R15.5")
+same("C15", "load-mesh-unpack", E + "FEM/_mesh.py", "        connect, coordinates = data[0]\n", "        (connect, coordinates), _part, _tags = data\n")
+mut("C18", "build-de-entry", E + "Models/HyperElastic/_state.py", "Add(3, [0, g02, g01, 0, g12, g11, 0, g22, g21], cM)", "Add(3, [0, g01, g02, 0, g12, g11, 0, g22, g21], cM)", "R18.11")
+mut("C18", "green-lagrange-half", E + "Models/HyperElastic/_state.py", "        E_e_pg = 1 / 2 * (C_e_pg - np.eye(3))", "        E_e_pg = (C_e_pg - np.eye(3))", "R18.11")
+same("C18", "build-de-reorder", E + "Models/HyperElastic/_state.py", "            Add(0, [g00, 0, g10, 0])  # xx\n            Add(1, [0, g01, 0, g11])  # yy\n", "            Add(1, [0, g01, 0, g11])  # yy\n            Add(0, [g00, 0, g10, 0])  # xx\n")
+mut("C19", "jacobian-increment", E + "Models/InElastic/_behavior.py", "                J_e_pg[..., Bi, nz] = -(N_e_pg - component.recall * z_e_pg[..., Bi])", "                J_e_pg[..., Bi, nz] = -(N_e_pg - component.recall * u_e_pg[..., Bi])", "R19.11")
+same("C19", "jacobian-rewrite", E + "Models/InElastic/_behavior.py", "                J_e_pg[..., Bi, nz] = -(N_e_pg - component.recall * z_e_pg[..., Bi])", "                J_e_pg[..., Bi, nz] = component.recall * z_e_pg[..., Bi] - N_e_pg")
+mut("C17", "trace-selector-swapped", E + "Models/_phasefield.py", "        Rp_e_pg = (1 + np.sign(trace)) / 2\n        Rm_e_pg = (1 + np.sign(-trace)) / 2", "        Rp_e_pg = (1 + np.sign(-trace)) / 2\n        Rm_e_pg = (1 + np.sign(trace)) / 2", "R17.8")
+
 
 def rename_locals_edit(repo_root, qualname):
     """(file, old_text, new_text) renaming every local variable of the function (parameters kept)"""
